@@ -1007,6 +1007,10 @@ class TransactionEvaluator:
                 return 0
             return left / right
         if isinstance(node.op, ast.Mod):
+            if isinstance(left, str):
+                # text % value formats the value as text: same rule as the string functions
+                _text(right)
+                return left % right
             if right == 0:
                 return 0
             return left % right
